@@ -12,6 +12,9 @@
 // child exit non-zero right after printing it; the parent captures the child's stderr, attributes it to the round
 // that was running, and writes a replay (seed, round, race report). --replay re-runs that round 30× in children.
 //
+// heldspecialise.go adds the rounds in which a request is held inside the per-request specialisation of a shared plan
+// (variable-driven @skip/@include) while a request with another value of the variable runs.
+//
 // coldmiss.go adds the rounds in which N goroutines miss ONE entry of a cold normalising cache at the same time with
 // requests that differ only in extracted literals.
 package main
@@ -61,6 +64,9 @@ type scenario struct {
 	buildGen func(gen int) (*graphql.Schema, error)
 	// coldMiss marks the rounds of coldmiss.go (one cold NORMALISING cache, requests that share an entry but differ in literals)
 	coldMiss bool
+	// heldSpec marks the rounds of heldspecialise.go (one shared plan with variable-driven @skip/@include; request A held inside
+	// its per-request specialisation while request B, with the other value of the variable, runs from start to end)
+	heldSpec bool
 }
 
 var wideQueries = []string{
@@ -451,6 +457,10 @@ func scenarios(seed uint64, thorough bool) []scenario {
 	for k := 0; k < 3; k++ {
 		out = append(out, coldMissScenario())
 	}
+	// a request held inside Plan.specialise while another one with a different directive variable runs (heldspecialise.go)
+	for k := 0; k < 2; k++ {
+		out = append(out, heldSpecScenario())
+	}
 	nGen := 6
 	if thorough {
 		nGen = 40
@@ -509,6 +519,9 @@ func mkRound(seed uint64, i int, scs []scenario) roundSpec {
 	rs.Hot = hot
 	if scs[rs.Scenario].coldMiss {
 		rs.Norm = true
+	}
+	if scs[rs.Scenario].heldSpec {
+		rs.N = 2 // request A and request B; the scripts below are not used
 	}
 	for g := 0; g < rs.N; g++ {
 		var sc []step
@@ -609,6 +622,9 @@ func runRound(rs roundSpec, scs []scenario) roundResult {
 	}
 	if sc.coldMiss {
 		return runColdMissRound(rs, sc)
+	}
+	if sc.heldSpec {
+		return runHeldSpecRound(rs, sc)
 	}
 	res := roundResult{Round: rs.Round, Scenario: sc.Name, N: rs.N}
 	// ---- sequential baseline on its own fresh schema
@@ -909,10 +925,12 @@ func main() {
 		}(j)
 	}
 	wg.Wait()
-	run.Res.Rule = "a round = one cold schema + plan cache + prepared plans shared by N goroutines (N in {2,4,16}) that start together and each run 2-4 steps from {Do, PlanCache.Get+ExecutePlan, ExecutePlan on the shared plan, ValidateDocument, PlanCache.Reset}; non-trivial when N >= 2 goroutines completed >= 2 steps each; each response compared with the sequential baseline of the same request on another fresh schema; built with -race, a race report / panic / deadlock in the child process is a violation; coldMissNearLiterals rounds: one cold NORMALISING cache, every goroutine sends its own variant of one request family (same normalised text, different extracted literals; echo resolvers), the first build is held inside validation until all goroutines are inside Get (bounded wait), each response compared with the same request alone; such a round is non-trivial only if the family premise held (one cache key, distinct literals, served without errors alone)"
+	run.Res.Rule = "a round = one cold schema + plan cache + prepared plans shared by N goroutines (N in {2,4,16}) that start together and each run 2-4 steps from {Do, PlanCache.Get+ExecutePlan, ExecutePlan on the shared plan, ValidateDocument, PlanCache.Reset}; non-trivial when N >= 2 goroutines completed >= 2 steps each; each response compared with the sequential baseline of the same request on another fresh schema; built with -race, a race report / panic / deadlock in the child process is a violation; coldMissNearLiterals rounds: one cold NORMALISING cache, every goroutine sends its own variant of one request family (same normalised text, different extracted literals; echo resolvers), the first build is held inside validation until all goroutines are inside Get (bounded wait), each response compared with the same request alone; such a round is non-trivial only if the family premise held (one cache key, distinct literals, served without errors alone); heldSpecialise rounds: ONE shared plan (PlanQuery, or a PlanCache entry) of a document with variable-driven @skip/@include, request A held inside a custom scalar's ParseLiteral during its per-request specialisation (bounded 50 ms) while request B with the other value of the variable runs from start to end, then three sequential requests on the same plan; every response compared with graphql.Do of the same request on a fresh schema; non-trivial only if B really ran to completion while A was held"
 	run.Res.Extra["coldMiss_rounds"] = run.Res.Histogram["scenario="+coldMissName]
 	run.Res.Extra["coldMiss_rounds_with_overlapping_builds"] = run.Res.Histogram["coldMiss:rounds-with-overlapping-builds"]
 	run.Res.Extra["coldMiss_rounds_held_build_saw_all_others_inside_Get"] = run.Res.Histogram["coldMiss:held-build-saw-all-others-enter-Get"]
+	run.Res.Extra["heldSpecialise_rounds"] = run.Res.Histogram["scenario="+heldSpecName]
+	run.Res.Extra["heldSpecialise_rounds_B_completed_while_A_was_held"] = run.Res.Histogram["heldSpecialise:park=overlapped(B-ran-to-completion-while-A-was-held)"]
 	run.Res.Extra["rounds"] = len(jobs)
 	run.Res.Extra["scenarios"] = len(scs)
 	run.Res.Assumptions = []string{"race freedom, absence of panics/deadlocks and equality with the sequential response are sampled over schedules the Go scheduler happened to produce (race detector), not proved for the real binary"}
